@@ -28,6 +28,7 @@ const (
 	tagMap   = 0xd6e8feb86659fd93
 	tagIface = 0xa0761d6478bd642f
 	tagEmpty = 0xe7037ed1a0b428db
+	tagSpare = 0x8ebc6af09c88c6e3
 	maxDepth = 200
 )
 
@@ -103,7 +104,7 @@ func hashValue(v reflect.Value, depth int) uint64 {
 		}
 		n := v.Len()
 		if n == 0 {
-			return tagEmpty
+			return mix(tagEmpty, spareHash(v, depth))
 		}
 		h := mix(tagSlice, uint64(n))
 		if v.Type().Elem().Kind() == reflect.Uint8 {
@@ -111,12 +112,12 @@ func hashValue(v reflect.Value, depth int) uint64 {
 			for _, c := range b {
 				h = mix(h, uint64(c))
 			}
-			return h
+			return mix(h, spareHash(v, depth))
 		}
 		for i := 0; i < n; i++ {
 			h = mix(h, hashValue(v.Index(i), depth+1))
 		}
-		return h
+		return mix(h, spareHash(v, depth))
 	case reflect.Array:
 		n := v.Len()
 		h := mix(tagSlice, uint64(n))
@@ -156,6 +157,52 @@ func hashValue(v reflect.Value, depth int) uint64 {
 		return tagPtr
 	}
 	return 0
+}
+
+// pointerFree reports whether values of type t contain no pointers (so that
+// reading stale elements beyond a slice's length is harmless and meaningful).
+var pointerFreeCache = map[reflect.Type]bool{}
+
+func pointerFree(t reflect.Type) bool {
+	if r, ok := pointerFreeCache[t]; ok {
+		return r
+	}
+	r := false
+	switch t.Kind() {
+	case reflect.Bool, reflect.Int, reflect.Int8, reflect.Int16, reflect.Int32, reflect.Int64,
+		reflect.Uint, reflect.Uint8, reflect.Uint16, reflect.Uint32, reflect.Uint64, reflect.Uintptr,
+		reflect.Float32, reflect.Float64, reflect.Complex64, reflect.Complex128:
+		r = true
+	case reflect.Array:
+		r = pointerFree(t.Elem())
+	case reflect.Struct:
+		r = true
+		for i := 0; i < t.NumField(); i++ {
+			if !pointerFree(t.Field(i).Type) {
+				r = false
+			}
+		}
+	}
+	pointerFreeCache[t] = r
+	return r
+}
+
+// spareHash fingerprints the elements between a slice's length and its
+// capacity (pointer-free element types only). That region is memory of the
+// observed object too: `append(shared[:0], ...)` or an append within spare
+// capacity writes there without changing any visible length - the classic
+// shape of a shared scratch buffer.
+func spareHash(v reflect.Value, depth int) uint64 {
+	n, c := v.Len(), v.Cap()
+	if c <= n || c-n > 1<<16 || !pointerFree(v.Type().Elem()) {
+		return 0
+	}
+	sp := v.Slice(0, c)
+	h := mix(tagSpare, uint64(c-n))
+	for i := n; i < c; i++ {
+		h = mix(h, hashValue(sp.Index(i), depth+1))
+	}
+	return h
 }
 
 // Entry is one leaf (or container header) of a flattened value.
@@ -205,6 +252,9 @@ func flat(v reflect.Value, path string, depth int, out *[]Entry) {
 			return
 		}
 		leaf(out, path+".len", uint64(v.Len())+1, strconv.Itoa(v.Len()))
+		if sh := spareHash(v, 0); sh != 0 {
+			leaf(out, path+".spare-capacity", sh, fmt.Sprintf("%d elements beyond len", v.Cap()-v.Len()))
+		}
 		if v.Type().Elem().Kind() == reflect.Uint8 {
 			leaf(out, path, hashValue(v, 0), fmt.Sprintf("%d bytes", v.Len()))
 			return
